@@ -31,11 +31,11 @@ var (
 	allAlgs    = []string{"RS256", "RS384", "RS512", "PS256", "PS384", "PS512", "ES256", "ES384", "ES512", "EdDSA"}
 	// HMAC algorithms: only ever allowed by an explicit allow-list, verified with a shared secret; the library has no
 	// at_hash hash for them
-	hsAlgs  = []string{"HS256", "HS384", "HS512"}
-	issuers = []string{"https://op.example.com", "https://op.example.com/", "https://op.example.com/tenant/a", "http://localhost:9998/", "https://xn--op-jka.example/ü"}
-	clientIDs  = []string{"client-1", "web", "0oa1b2c3d4@apps.example", "urn:example:client:Ünï", "a b"}
-	acrSilver  = "urn:mace:incommon:iap:silver"
-	acrBronze  = "urn:mace:incommon:iap:bronze"
+	hsAlgs    = []string{"HS256", "HS384", "HS512"}
+	issuers   = []string{"https://op.example.com", "https://op.example.com/", "https://op.example.com/tenant/a", "http://localhost:9998/", "https://xn--op-jka.example/ü"}
+	clientIDs = []string{"client-1", "web", "0oa1b2c3d4@apps.example", "urn:example:client:Ünï", "a b"}
+	acrSilver = "urn:mace:incommon:iap:silver"
+	acrBronze = "urn:mace:incommon:iap:bronze"
 )
 
 type cfg struct {
@@ -59,6 +59,51 @@ type cfg struct {
 	// through rp.WithSigningAlgsFromDiscovery() instead of rp.WithSupportedSigningAlgorithms
 	Route      string
 	RouteOrder int // position of WithSigningAlgsFromDiscovery among the options (0 first, 1 last)
+	// Published: what the provider's discovery document names as its issuer, relative to the issuer the relying party is
+	// configured with ("" / "equal": the same string; otherwise one of issKinds). Only meaningful on the rp-oidc routes.
+	// The statement speaks of the *configured* issuer: whatever the relying party does with such a provider (refusing to be
+	// built is fine), a verifier it hands out must go by the configured issuer.
+	Published string
+	// DiscURL: the discovery document is fetched from a custom URL (rp.WithCustomDiscoveryUrl) instead of the well-known one
+	DiscURL bool
+}
+
+const customDiscoveryURL = "https://op.example.com/custom/c01-discovery-document"
+
+func (c *cfg) mismatchingProvider() bool { return c.Published != "" && c.Published != "equal" }
+
+// publishedIssuer is the issuer member of the provider's discovery document (ok=false: the member is absent).
+func (c *cfg) publishedIssuer() (string, bool) {
+	if !c.mismatchingProvider() {
+		return c.Issuer, true
+	}
+	return issVariant(c.Issuer, c.Published)
+}
+
+// issVariant derives a look-alike / hostile issuer from the configured one.
+func issVariant(issuer, kind string) (string, bool) {
+	switch kind {
+	case "equal":
+		return issuer, true
+	case "other":
+		return "https://evil.example.org", true
+	case "empty":
+		return "", true
+	case "absent":
+		return "", false
+	case "slash-twin":
+		if strings.HasSuffix(issuer, "/") {
+			return strings.TrimSuffix(issuer, "/"), true
+		}
+		return issuer + "/", true
+	case "case":
+		return strings.ToUpper(issuer), true
+	case "suffix":
+		return issuer + ".evil.example", true
+	case "truncated":
+		return issuer[:len(issuer)-1], true
+	}
+	panic("issVariant: " + kind)
 }
 
 func (c *cfg) describe() map[string]any {
@@ -66,11 +111,16 @@ func (c *cfg) describe() map[string]any {
 	if c.NonceFn {
 		nonce = c.NonceVal
 	}
-	return map[string]any{
+	m := map[string]any{
 		"issuer": c.Issuer, "client_id": c.ClientID, "offset": c.Offset.String(), "offset_by_option": c.OffsetOpt,
 		"max_age_iat": c.MaxAgeIAT.String(), "max_age": c.MaxAge.String(), "nonce_fn_returns": nonce, "nonce_by_option": c.NonceOpt,
 		"acr_allow_list": c.ACR, "acr_custom_fn": c.ACRCustom, "supported_algs": c.Algs, "algs_kind": c.AlgsKind, "verifier_obtained_through": c.Route,
 	}
+	if c.Route != "" && c.Route != "direct" {
+		pub, ok := c.publishedIssuer()
+		m["provider_publishes_issuer"], m["provider_publishes_issuer_member"], m["provider_issuer_kind"], m["custom_discovery_url"] = pub, ok, c.Published, c.DiscURL
+	}
+	return m
 }
 
 func (c *cfg) key() string {
@@ -78,13 +128,19 @@ func (c *cfg) key() string {
 	if c.NonceFn {
 		n = "fn:" + c.NonceVal
 	}
-	return fmt.Sprintf("o=%s/%v,mi=%s,ma=%s,n=%s,acr=%d,algs=%s,via=%s", c.Offset, c.OffsetOpt, c.MaxAgeIAT, c.MaxAge, n, len(c.ACR), c.AlgsKind, c.Route)
+	via := c.Route
+	if c.mismatchingProvider() {
+		via += "/publishes-" + c.Published
+	}
+	return fmt.Sprintf("o=%s/%v,mi=%s,ma=%s,n=%s,acr=%d,algs=%s,via=%s", c.Offset, c.OffsetOpt, c.MaxAgeIAT, c.MaxAge, n, len(c.ACR), c.AlgsKind, via)
 }
 
 type ctxKey struct{}
 
-// build constructs the verifier through the library's own constructor and options.
-func (c *cfg) build(ks oidc.KeySet) (*rp.IDTokenVerifier, context.Context) {
+// build constructs the verifier through the library's own constructor and options. The error is that of
+// rp.NewRelyingPartyOIDC (a relying party may refuse its provider); jwks, when not nil, answers the key downloads of a
+// relying party instead of the static document of the key pool.
+func (c *cfg) build(ks oidc.KeySet, jwks http.RoundTripper) (*rp.IDTokenVerifier, context.Context, error) {
 	var opts []rp.VerifierOption
 	if c.OffsetOpt {
 		opts = append(opts, rp.WithIssuedAtOffset(c.Offset))
@@ -126,14 +182,18 @@ func (c *cfg) build(ks oidc.KeySet) (*rp.IDTokenVerifier, context.Context) {
 		opts = append(opts, rp.WithSupportedSigningAlgorithms(c.Algs...))
 	}
 	if c.Route == "" || c.Route == "direct" {
-		return rp.NewIDTokenVerifier(c.Issuer, c.ClientID, ks, opts...), ctx
+		return rp.NewIDTokenVerifier(c.Issuer, c.ClientID, ks, opts...), ctx, nil
 	}
 	// through a relying party: the same options handed to rp.WithVerifierOpts must govern its ID token verifier
 	discAlgs := c.Algs
 	if !fromDiscovery {
 		discAlgs = allAlgs // what the provider advertises is irrelevant unless the RP was asked to follow it
 	}
-	ropts := []rp.Option{rp.WithHTTPClient(&http.Client{Transport: &discoveryRT{issuer: c.Issuer, algs: discAlgs}}), rp.WithVerifierOpts(opts...)}
+	pub, pubOK := c.publishedIssuer()
+	ropts := []rp.Option{rp.WithHTTPClient(&http.Client{Transport: &discoveryRT{issuer: pub, noIssuer: !pubOK, algs: discAlgs, jwks: jwks}}), rp.WithVerifierOpts(opts...)}
+	if c.DiscURL {
+		ropts = append(ropts, rp.WithCustomDiscoveryUrl(customDiscoveryURL))
+	}
 	if fromDiscovery {
 		if c.RouteOrder == 0 {
 			ropts = append([]rp.Option{rp.WithSigningAlgsFromDiscovery()}, ropts...)
@@ -143,22 +203,31 @@ func (c *cfg) build(ks oidc.KeySet) (*rp.IDTokenVerifier, context.Context) {
 	}
 	party, err := rp.NewRelyingPartyOIDC(context.Background(), c.Issuer, c.ClientID, "secret", "https://rp.example/cb", []string{"openid"}, ropts...)
 	if err != nil {
-		panic("c01 harness: relying party for " + c.Issuer + " cannot be built: " + err.Error())
+		return nil, ctx, err
 	}
-	return party.IDTokenVerifier(), ctx
+	return party.IDTokenVerifier(), ctx, nil
 }
 
-// discoveryRT answers the discovery document of one issuer and, for every other URL, the JWKS of the key pool.
+// discoveryRT answers the discovery document of one provider (at the well-known path under any issuer, and at the custom
+// discovery URL) and, for every other URL, the JWKS of the key pool (or hands the request to jwks).
 type discoveryRT struct {
-	issuer string
-	algs   []string
+	issuer   string
+	noIssuer bool // the document has no issuer member
+	algs     []string
+	jwks     http.RoundTripper
 }
 
 func (d *discoveryRT) RoundTrip(req *http.Request) (*http.Response, error) {
 	var body []byte
-	if strings.HasSuffix(req.URL.Path, oidc.DiscoveryEndpoint) {
-		body, _ = json.Marshal(map[string]any{"issuer": d.issuer, "authorization_endpoint": "https://op.example.com/authorize", "token_endpoint": "https://op.example.com/token",
-			"jwks_uri": "https://op.example.com/c01-keys", "id_token_signing_alg_values_supported": d.algs, "response_types_supported": []string{"code"}, "subject_types_supported": []string{"public"}})
+	if strings.HasSuffix(req.URL.Path, oidc.DiscoveryEndpoint) || req.URL.String() == customDiscoveryURL {
+		doc := map[string]any{"issuer": d.issuer, "authorization_endpoint": "https://op.example.com/authorize", "token_endpoint": "https://op.example.com/token",
+			"jwks_uri": "https://op.example.com/c01-keys", "id_token_signing_alg_values_supported": d.algs, "response_types_supported": []string{"code"}, "subject_types_supported": []string{"public"}}
+		if d.noIssuer {
+			delete(doc, "issuer")
+		}
+		body, _ = json.Marshal(doc)
+	} else if d.jwks != nil {
+		return d.jwks.RoundTrip(req)
 	} else {
 		body = poolJWKS()
 	}
@@ -298,16 +367,33 @@ type vec struct {
 	Extras string // none | profile | custom | both
 	Fold   string // "" or the registered claim that is shadowed by a case-variant twin (observation only)
 	Broken []string
+	// Mis: a registered member of the payload carries a value of the wrong JSON type (nil: none)
+	Mis *mistype
+}
+
+// mistype describes one wrongly typed registered member of the payload and where it stands among the members.
+type mistype struct {
+	Member string // the member that carries the wrongly typed value (added if the vector has none)
+	Value  string // number | bool | text | list | list-client | list-other | list-number | object | null
+	Role   string // self: Member belongs to a judged dimension; bystander: a registered member no condition speaks of
+	Pos    string // shuffled | first | last | before-broken (Member, then the members of the broken dimensions, close the payload)
+}
+
+func (m *mistype) String() string {
+	if m == nil {
+		return ""
+	}
+	return m.Role + ":" + m.Member + "=" + m.Value + "@" + m.Pos
 }
 
 func (v *vec) describe() map[string]any {
 	return map[string]any{"class": v.Class, "entry": v.Entry, "alg": v.Alg, "typ": v.Typ, "iss": v.Iss, "sub": v.Sub, "aud": v.Aud, "azp": v.Azp,
 		"other_party": v.X, "exp": v.Exp.String(), "iat": v.Iat.String(), "auth_time": v.Auth.String(), "nonce": v.Nonce, "acr": v.Acr,
-		"at_hash": v.AtHash, "access_token": v.Access, "extras": v.Extras, "casefold_probe": v.Fold, "broken": v.Broken}
+		"at_hash": v.AtHash, "access_token": v.Access, "extras": v.Extras, "casefold_probe": v.Fold, "broken": v.Broken, "mistyped_member": v.Mis.String()}
 }
 
 func (v *vec) key(c *cfg) string {
-	return strings.Join([]string{v.Entry, v.Alg, c.key(), v.Iss, v.Sub, v.Aud, v.Azp, v.Exp.String(), v.Iat.String(), v.Auth.String(), v.Nonce, v.Acr, v.AtHash, v.Access}, "|")
+	return strings.Join([]string{v.Entry, v.Alg, c.key(), v.Iss, v.Sub, v.Aud, v.Azp, v.Exp.String(), v.Iat.String(), v.Auth.String(), v.Nonce, v.Acr, v.AtHash, v.Access, v.Mis.String()}, "|")
 }
 
 var (
@@ -646,25 +732,14 @@ func materialise(r *rand.Rand, c *cfg, v *vec, base int64) (payload []byte, acce
 	add := func(k string, val any) { p = append(p, kv{k, val}) }
 	x := otherParty(c, v.X)
 	switch v.Iss {
-	case "equal":
-		add("iss", c.Issuer)
-	case "other":
-		add("iss", "https://evil.example.org")
-	case "empty":
-		add("iss", "")
-	case "absent":
-	case "slash-twin":
-		if strings.HasSuffix(c.Issuer, "/") {
-			add("iss", strings.TrimSuffix(c.Issuer, "/"))
-		} else {
-			add("iss", c.Issuer+"/")
+	case "published": // what the provider's discovery document names (differs from the configured issuer for a mismatching provider)
+		if pub, ok := c.publishedIssuer(); ok {
+			add("iss", pub)
 		}
-	case "case":
-		add("iss", strings.ToUpper(c.Issuer))
-	case "suffix":
-		add("iss", c.Issuer+".evil.example")
-	case "truncated":
-		add("iss", c.Issuer[:len(c.Issuer)-1])
+	default:
+		if iss, ok := issVariant(c.Issuer, v.Iss); ok {
+			add("iss", iss)
+		}
 	}
 	switch v.Sub {
 	case "set":
@@ -799,7 +874,22 @@ func materialise(r *rand.Rand, c *cfg, v *vec, base int64) (payload []byte, acce
 		add("blank", "")
 		add("zero", 0)
 	}
+	if v.Mis != nil {
+		val := mistypedValue(c, v.Mis)
+		found := false
+		for i := range p {
+			if p[i].K == v.Mis.Member {
+				p[i].V, found = val, true
+			}
+		}
+		if !found {
+			add(v.Mis.Member, val)
+		}
+	}
 	r.Shuffle(len(p), func(i, j int) { p[i], p[j] = p[j], p[i] })
+	if v.Mis != nil && v.Mis.Pos != "shuffled" {
+		p = placeMistyped(p, v)
+	}
 	if v.Fold != "" {
 		// observation only: the exact claim carries a hostile value, a case-variant twin placed after it carries the
 		// value the verifier wants (encoding/json matches struct fields case-insensitively, the last one wins)
@@ -831,4 +921,156 @@ func materialise(r *rand.Rand, c *cfg, v *vec, base int64) (payload []byte, acce
 	}
 	b.WriteByte('}')
 	return []byte(b.String()), access
+}
+
+// ---------------------------------------------------------------------------------------------
+// wrongly typed members
+// ---------------------------------------------------------------------------------------------
+
+// memberOfDim: the payload members a judged dimension is decided by.
+var memberOfDim = map[string][]string{"iss": {"iss"}, "sub": {"sub"}, "aud": {"aud", "azp"}, "azp": {"azp", "aud"}, "exp": {"exp"}, "iat": {"iat"},
+	"auth_time": {"auth_time"}, "nonce": {"nonce"}, "acr": {"acr"}, "at_hash": {"at_hash"}}
+
+var (
+	selfMembers = []string{"azp", "azp", "at_hash", "at_hash", "nonce", "acr", "auth_time", "sub", "iss", "aud", "exp", "iat"}
+	// bystanders: registered members no condition of the statement speaks of. In the library's claim types some are decoded
+	// by a type of their own (nbf, updated_at, locale, act), the others by encoding/json itself.
+	bystanders  = []string{"nbf", "nbf", "updated_at", "updated_at", "locale", "act", "name", "amr", "address", "jti", "sid", "email", "phone_number_verified", "c_hash", "client_id"}
+	misBreakers = []string{"azp", "azp", "at_hash", "at_hash", "nonce", "acr", "aud", "auth_time", "iss"}
+)
+
+// mistypedValue: a value of a JSON type the member can not have (for time members a text that is no RFC 3339 instant: the
+// library documents that form as accepted).
+func mistypedValue(c *cfg, m *mistype) any {
+	switch m.Value {
+	case "number":
+		if m.Member == "amr" || m.Member == "address" || m.Member == "act" || m.Member == "locale" || m.Member == "phone_number_verified" {
+			return 5
+		}
+		switch m.Member {
+		case "exp", "iat", "auth_time", "nbf", "updated_at": // numbers are the right type there
+			return true
+		}
+		return 4711
+	case "bool":
+		if m.Member == "phone_number_verified" {
+			return "yes"
+		}
+		return m.Member != "updated_at"
+	case "text":
+		switch m.Member {
+		case "exp", "iat", "auth_time", "nbf", "updated_at":
+			return "soon"
+		case "amr", "address", "act", "phone_number_verified":
+			return "pwd"
+		}
+		return []any{} // text is the right type of the string members: an empty list instead
+	case "list":
+		if m.Member == "amr" {
+			return map[string]any{"0": "pwd"}
+		}
+		return []any{"x"}
+	case "list-client":
+		if m.Member == "amr" || m.Member == "aud" {
+			return []any{c.ClientID, 5}
+		}
+		return []any{c.ClientID}
+	case "list-other":
+		if m.Member == "amr" || m.Member == "aud" {
+			return []any{5, "https://rs.example/api"}
+		}
+		return []any{"https://rs.example/api"}
+	case "list-number":
+		return []any{1, 2}
+	case "object":
+		if m.Member == "address" || m.Member == "act" {
+			return []any{map[string]any{"sub": "x"}}
+		}
+		return map[string]any{"value": c.ClientID}
+	case "null":
+		return nil
+	}
+	panic("mistypedValue: " + m.Value)
+}
+
+var misValues = []string{"number", "number", "bool", "text", "list", "list-client", "list-other", "list-number", "object", "null"}
+
+// overlayMistype gives one vector in five a wrongly typed member. r is a stream of its own, so the vectors of the other
+// dimensions are the same with and without this overlay.
+func overlayMistype(r *rand.Rand, c *cfg, v *vec) {
+	if r.IntN(5) != 0 {
+		return
+	}
+	m := &mistype{Value: pick(r, misValues...)}
+	if r.IntN(3) == 0 {
+		m.Role, m.Member, m.Pos = "self", pick(r, selfMembers...), pick(r, "shuffled", "shuffled", "first", "last")
+		if m.Member == "at_hash" && r.IntN(3) != 0 {
+			v.Entry = "VerifyTokens[IDTokenClaims]"
+		}
+		if m.Member == "auth_time" && c.MaxAge == 0 && r.IntN(2) == 0 {
+			c.MaxAge = pick(r, maxAges[1:]...)
+		}
+	} else {
+		m.Role, m.Member, m.Pos = "bystander", pick(r, bystanders...), pick(r, "shuffled", "first", "last", "before-broken", "before-broken", "before-broken")
+		if len(v.Broken) == 0 && r.IntN(4) != 0 {
+			// a hostile value in a dimension whose *absence* would be harmless, next to the wrongly typed bystander
+			d := pick(r, misBreakers...)
+			breakDim(r, c, v, d)
+			v.Broken = append(v.Broken, d)
+		}
+	}
+	v.Mis = m
+}
+
+// placeMistyped moves the wrongly typed member to its position.
+func placeMistyped(p []kv, v *vec) []kv {
+	var mis []kv
+	var tail []kv
+	var rest []kv
+	move := map[string]bool{}
+	if v.Mis.Pos == "before-broken" {
+		for _, d := range v.Broken {
+			for _, k := range memberOfDim[d] {
+				move[k] = true
+			}
+		}
+	}
+	for _, e := range p {
+		switch {
+		case e.K == v.Mis.Member:
+			mis = append(mis, e)
+		case move[e.K]:
+			tail = append(tail, e)
+		default:
+			rest = append(rest, e)
+		}
+	}
+	if v.Mis.Pos == "first" {
+		return append(append(mis, rest...), tail...)
+	}
+	return append(append(rest, mis...), tail...)
+}
+
+// memberOrder returns the position of every member name in the literal payload (first occurrence).
+func memberOrder(raw []byte) map[string]int {
+	out := map[string]int{}
+	dec := json.NewDecoder(bytes.NewReader(raw))
+	if t, err := dec.Token(); err != nil || t != json.Delim('{') {
+		return out
+	}
+	for i := 0; dec.More(); i++ {
+		t, err := dec.Token()
+		if err != nil {
+			return out
+		}
+		k, _ := t.(string)
+		if _, seen := out[k]; !seen {
+			out[k] = i
+		}
+		var skip json.RawMessage
+		if dec.Decode(&skip) != nil {
+			return out
+		}
+	}
+	return out
 }
